@@ -48,6 +48,6 @@ namespace vu::raw
    inline std::size_t all( In_lf& a, In_cr& b, In_crlf& c, In_lf_crlf& d, In_cr_crlf& e )
    {
       std::size_t sz = 0;
-      return all_raw( a ) + all_raw( b ) + all_raw( c ) + all_raw( d ) + all_raw( e ) + m< http::chunk_size >( d, sz );
+      return all_raw( a ) + all_raw( b ) + all_raw( c ) + all_raw( d ) + all_raw( e ) + m< http::chunk_size >( d, sz ) + m< http::chunk_data >( d, sz );
    }
 }  // namespace vu::raw
